@@ -63,6 +63,7 @@ PROPS = {
                    "Game::solve's dispatch is proved against stand-ins for NonZeroUsize / available_parallelism and uninterpreted solvers. exp is a "
                    "sound interval model in the softmax harness.",
         verus=[U("c05_avg_strat", ["C05.V.avg_strat.sums_to_one", "C05.V.avg_strat.normalised", "C05.V.avg_strat.uniform_when_empty"]),
+               U("c05_into_avg_strat", ["C05.V.into_avg_strat.normalised"]),
                U("c05_solve_dispatch", ["C05.V.solve.one_thread_never_errors", "C05.V.solve.thread_overflow", "C05.V.solve.multi_dispatch", "C05.V.solve.result_plumbing"]),
                U("c08_advance_order", ["C02.V.advance.reports_bound (the bound is computed with the caller's iteration number >= 1, hence a number)"])],
         kani_functions=["src/solve/data.rs :: fn avg_strat", "src/solve/data.rs :: impl RegretParams / fn regret_match", "src/solve/data.rs :: impl RegretInfoset / fn new"],
